@@ -519,7 +519,9 @@ func runHTTPServer(t *testing.T, c *HTTPCase, trace bool) *common.Outcome {
 					// same read (over TLS: in the next record of the same read)
 					want := len(plan.Reqs)
 					simrt.WaitStuck("client-await-all", 2*time.Second, func() bool { return countResponses(cs.recvd) >= want || cs.eof })
-					bad := []byte("POST /x HTTP/1.1\r\nHost: sim\r\nContent-Length: 1x\r\n\r\nab")
+					// (malformed from its first byte, so that the parser fails at a message boundary:
+					// whatever follows would parse as a fresh message if it were looked at)
+					bad := []byte("\x01\x02 / HTTP/1.1\r\nHost: sim\r\n\r\n")
 					good := []byte(fmt.Sprintf("POST /x HTTP/1.1\r\nHost: sim\r\nX-Id: c%d-after\r\nContent-Length: 0\r\n\r\n", i))
 					if c.TLS {
 						cs.p.write(bad, 0)
@@ -580,7 +582,7 @@ func runHTTPServer(t *testing.T, c *HTTPCase, trace bool) *common.Outcome {
 				}
 			}
 			if after := fmt.Sprintf("c%d-after", i); reported[after] > 0 || served[after] > 0 {
-				fail("request-reported-after-parse-error", class, "connection %d: a malformed request (non-numeric Content-Length) was followed by a valid one in the same write; the engine reported the valid one %d times (handler ran %d times) although parsing had failed before it", i, reported[after], served[after])
+				fail("request-reported-after-parse-error", class, "connection %d: a malformed request (control characters instead of a method) was followed by a valid one in the same write; the engine reported the valid one %d times (handler ran %d times) although parsing had failed before it", i, reported[after], served[after])
 				return
 			}
 			if cs.plan.BadTail {
